@@ -61,22 +61,23 @@ const (
 
 // Gen is the program generator.
 type Gen struct {
-	R          Rng
-	Mix        Mix
-	budget     int
-	sc         *gscope
-	level      int // current function nesting level
-	loops      int // loop nesting inside the current function
-	nameN      int
-	inTern     bool
-	inTmpl     bool
-	funcs      []*gfunc
-	Feats      map[string]int // feature counts of the generated program
-	errRate    int            // per-mille chance of a deliberately failing operation at a failure site
-	NoFail     bool
-	pending    []Stmt
-	noDefer    bool            // no defer statements (loop-dominated programs: deferred calls pile up per iteration)
-	generating map[string]bool // named functions whose body is being generated (not callable yet)
+	R            Rng
+	Mix          Mix
+	budget       int
+	sc           *gscope
+	level        int // current function nesting level
+	loops        int // loop nesting inside the current function
+	nameN        int
+	inTern       bool
+	inTmpl       bool
+	funcs        []*gfunc
+	Feats        map[string]int // feature counts of the generated program
+	NoForwardRef bool           // do not refer to top-level functions before their declaration
+	errRate      int            // per-mille chance of a deliberately failing operation at a failure site
+	NoFail       bool
+	pending      []Stmt
+	noDefer      bool            // no defer statements (loop-dominated programs: deferred calls pile up per iteration)
+	generating   map[string]bool // named functions whose body is being generated (not callable yet)
 }
 
 func NewGen(r Rng, mix Mix) *Gen {
@@ -158,6 +159,9 @@ func (g *Gen) Program(size int) *Program {
 	}
 	for i := 0; i < nFuncs; i++ {
 		p.Stmts = append(p.Stmts, g.funcDecl())
+	}
+	if g.chance(1, 4) {
+		p.Stmts = append(p.Stmts, g.recursionDecls()...)
 	}
 	n := 2 + g.pick(6)
 	for i := 0; i < n && g.budget > 0; i++ {
@@ -1141,4 +1145,70 @@ func (g *Gen) LoopProgram(size int, bound int64) *Program {
 	obs = append(obs, &Ident{Name: acc})
 	p.Stmts = append(p.Stmts, &ExprStmt{X: &ListLit{Items: obs}})
 	return p
+}
+
+// recursionDecls generates top-level recursive functions (direct recursion with a decreasing argument,
+// and mutual recursion that relies on top-level function names being usable before their declaration)
+// together with a variable holding a result, so that later statements can use it.
+func (g *Gen) recursionDecls() []Stmt {
+	n := func() Expr { return &Ident{Name: "n"} }
+	lit := func(v int64) Expr { return &IntLit{V: v} }
+	bin := func(op string, l, r Expr) Expr { return &Binary{Op: op, L: l, R: r} }
+	call := func(f string, a ...Expr) Expr { return &Call{F: &Ident{Name: f}, Args: a} }
+	ifRet := func(cond Expr, v Expr) Stmt { return &ExprStmt{X: &IfExpr{Cond: cond, Then: []Stmt{&Return{X: v}}}} }
+	var out []Stmt
+	arg := int64(1 + g.pick(9))
+	res := g.fresh("v")
+	kinds := 4
+	if g.NoForwardRef {
+		kinds = 3 // no references to functions declared later (pieces of a REPL session must compile alone)
+	}
+	switch g.pick(kinds) {
+	case 0:
+		// factorial / sum style
+		f := g.fresh("rec")
+		op := []string{"*", "+", "-"}[g.pick(3)]
+		out = append(out, &FuncDecl{F: &FuncLit{Name: f, Params: []Param{{Name: "n"}}, Body: []Stmt{
+			ifRet(bin("<=", n(), lit(1)), lit(1)),
+			&Return{X: bin(op, n(), call(f, bin("-", n(), lit(1))))}}}})
+		g.declare(&gvar{name: f, typ: tFunc, ro: true, fn: &gfunc{name: f, params: []T{tInt}, nreq: 1, ret: tInt, recursive: true}})
+		out = append(out, &VarDecl{Kind: ":=", Name: res, X: call(f, lit(arg))})
+		g.declare(&gvar{name: res, typ: tInt})
+		g.feat("recursion")
+	case 1:
+		// fibonacci style (two recursive calls), default parameter
+		f := g.fresh("rec")
+		out = append(out, &FuncDecl{F: &FuncLit{Name: f, Params: []Param{{Name: "n"}, {Name: "acc", Default: lit(0)}}, Body: []Stmt{
+			ifRet(bin("<", n(), lit(2)), bin("+", n(), &Ident{Name: "acc"})),
+			&ExprStmt{X: bin("+", call(f, bin("-", n(), lit(1))), call(f, bin("-", n(), lit(2)), lit(1)))}}}})
+		g.declare(&gvar{name: f, typ: tFunc, ro: true, fn: &gfunc{name: f, params: []T{tInt}, nreq: 1, ret: tInt, recursive: true}})
+		out = append(out, &VarDecl{Kind: ":=", Name: res, X: call(f, lit(arg%8))})
+		g.declare(&gvar{name: res, typ: tInt})
+		g.feat("recursion")
+	case 2:
+		// list-building recursion
+		f := g.fresh("rec")
+		out = append(out, &FuncDecl{F: &FuncLit{Name: f, Params: []Param{{Name: "n"}}, Body: []Stmt{
+			ifRet(bin("<=", n(), lit(0)), &ListLit{}),
+			&Return{X: bin("+", call(f, bin("-", n(), lit(1))), &ListLit{Items: []Expr{bin("*", n(), n())}})}}}})
+		g.declare(&gvar{name: f, typ: tFunc, ro: true, fn: &gfunc{name: f, params: []T{tInt}, nreq: 1, ret: tListInt, recursive: true}})
+		out = append(out, &VarDecl{Kind: ":=", Name: res, X: call(f, lit(arg%6))})
+		g.declare(&gvar{name: res, typ: tListInt})
+		g.feat("recursion")
+	default:
+		// mutual recursion: the first function refers to the second before its declaration
+		a, b := g.fresh("even"), g.fresh("odd")
+		out = append(out, &FuncDecl{F: &FuncLit{Name: a, Params: []Param{{Name: "n"}}, Body: []Stmt{
+			ifRet(bin("==", n(), lit(0)), &BoolLit{V: true}),
+			&Return{X: call(b, bin("-", n(), lit(1)))}}}})
+		out = append(out, &FuncDecl{F: &FuncLit{Name: b, Params: []Param{{Name: "n"}}, Body: []Stmt{
+			ifRet(bin("==", n(), lit(0)), &BoolLit{V: false}),
+			&Return{X: call(a, bin("-", n(), lit(1)))}}}})
+		g.declare(&gvar{name: a, typ: tFunc, ro: true, fn: &gfunc{name: a, params: []T{tInt}, nreq: 1, ret: tBool, recursive: true}})
+		g.declare(&gvar{name: b, typ: tFunc, ro: true, fn: &gfunc{name: b, params: []T{tInt}, nreq: 1, ret: tBool, recursive: true}})
+		out = append(out, &VarDecl{Kind: ":=", Name: res, X: call(a, lit(arg))})
+		g.declare(&gvar{name: res, typ: tBool})
+		g.feat("mutual-recursion")
+	}
+	return out
 }
